@@ -371,6 +371,61 @@ def step (cfg : Cfg) (s : St) : Label → Option St
 /-- Every state reachable under SOME interleaving of sender operations, receiver steps and outcomes. -/
 def Reachable (cfg : Cfg) (s : St) : Prop := Sched.Reachable (step cfg) init s
 
+/-! ### The blocking / async send variants as steps (`send_or_wait`, lib.rs:225-259)
+
+`send_or_wait` = a first `try_send`; on ANY error the call is counted in `queue_full_blocked` (lib.rs:237) —
+never in `queue_full_truncated` — and the loop is entered: clock reading, timeout check, `wait_until_empty` (a
+`when_empty` registration plus a runtime wait for the REMAINING time), `try_send` again. Every one of these is a
+step of the base system except the counter, so the extended system below adds exactly one label. The second
+counter lives outside `St`: no step of the base system reads or writes it, so every theorem about `Reachable`
+carries over verbatim (`BReachable b → Reachable b.st`, Lemmas/Batcher.lean `breachable_base`). -/
+
+/-- The channel state together with `InternalMetrics::queue_full_blocked` (internal_metrics.rs:49-56). -/
+structure BSt where
+  st : St
+  mBlocked : Nat
+  deriving Repr
+
+def binit : BSt := { st := init, mBlocked := 0 }
+
+/-- The first attempt of `send_or_wait` (lib.rs:232-237): `try_send`; `Ok` → done; any `Err` (full or closed) →
+    `queue_full_blocked.increment()` before the loop is entered. -/
+def sendOrWaitFirst (cfg : Cfg) (b : BSt) (x : Nat) : BSt × TryRes :=
+  match trySend cfg b.st x with
+  | (s, .ok) => ({ b with st := s }, .ok)
+  | (s, e) => ({ st := s, mBlocked := b.mBlocked + 1 }, e)
+
+/-- Labels of the extended system: every label of the base system, plus the first attempt of a blocking / async
+    send (`sync::blocking_send`, `tokio::blocking_send`, `tokio::send`). The later rounds of such a call are the
+    base labels `whenEmpty w` (the waker registered by `wait_until_empty`) and `trySend x`. -/
+inductive BLabel where
+  | base (l : Label)
+  | sendOrWaitFirst (x : Nat)
+  deriving Repr, DecidableEq
+
+def bstep (cfg : Cfg) (b : BSt) : BLabel → Option BSt
+  | .base l => (step cfg b.st l).map fun s => { b with st := s }
+  | .sendOrWaitFirst x => if b.st.senderAlive then some (sendOrWaitFirst cfg b x).1 else none
+
+def BReachable (cfg : Cfg) (b : BSt) : Prop := Sched.Reachable (bstep cfg) binit b
+
+/-- 1 if this label, executed in `b`, is a plain `send` that finds the queue full (lib.rs:190-193), else 0. -/
+def truncatingSend (cfg : Cfg) (b : BSt) : BLabel → Nat
+  | .base (.send _) => if b.st.pending.length ≥ cfg.cap then 1 else 0
+  | _ => 0
+
+/-- 1 if this label, executed in `b`, is the first attempt of a blocking / async send that fails, else 0. -/
+def blockedSend (cfg : Cfg) (b : BSt) : BLabel → Nat
+  | .sendOrWaitFirst x => if (trySend cfg b.st x).2 = .ok then 0 else 1
+  | _ => 0
+
+/-- Sum of `f state label` along the execution of `ls` from `b`. -/
+def countAlong (cfg : Cfg) (f : BSt → BLabel → Nat) : BSt → List BLabel → Nat
+  | _, [] => 0
+  | b, l :: ls => match bstep cfg b l with
+    | none => 0
+    | some b' => f b l + countAlong cfg f b' ls
+
 /-- Labels that are steps of the receiver's loop (or of the processor / timer it awaits). The individual callback
     invocations `rxFireTake` / `rxFireFlush` are NOT counted: the bounded-liveness theorems bound the number of
     loop steps, however many callbacks are registered. -/
@@ -499,6 +554,21 @@ def sendOrWaitLastReading (timeout : Nat) : (err : TryRes) → List (Nat × TryR
         | e => match sendOrWaitLastReading timeout e rest with
           | some t => some t
           | none => some elapsed
+
+/-- What `send_or_wait` passes to `wait_until_empty` (lib.rs:246), per loop iteration that waits: the clock reading
+    and the duration asked for — `timeout.saturating_sub(elapsed)`, the REMAINING time, not `timeout`. (With a
+    `closed` error the loop still waits once before `try_into_retryable()?` returns, lib.rs:246-249.) -/
+def sendOrWaitAsked (timeout : Nat) : (err : TryRes) → List (Nat × TryRes) → List (Nat × Nat)
+  | _, [] => []
+  | err, (elapsed, next) :: rest =>
+    match err with
+    | .ok => []
+    | .closed => if elapsed ≥ timeout then [] else [(elapsed, timeout - elapsed)]
+    | .full _ =>
+      if elapsed ≥ timeout then []
+      else (elapsed, timeout - elapsed) :: (match next with
+        | .ok => []
+        | e => sendOrWaitAsked timeout e rest)
 
 /-- Remaining-time accounting (lib.rs:243): every wait round is asked for `timeout - elapsed`, NOT for `timeout`.
     The runtime assumption: a wait returns within the time it was asked for plus a slack `δ`, i.e. the next
@@ -657,5 +727,13 @@ def blockingSendObs (cfg : Cfg) (rx : RxKind) (prefill timeout : Nat) (x : Nat) 
 def blockingSend (cfg : Cfg) (rx : RxKind) (prefill timeout : Nat) (x : Nat) : Option SendRes :=
   let (first, obs) := blockingSendObs cfg rx prefill timeout x
   sendOrWait timeout first obs
+
+/-- `(queue_full_truncated, queue_full_blocked)` after a blocking / async send against the prefilled channel: the
+    first attempt is the label `sendOrWaitFirst` (the only place `send_or_wait` touches a counter, lib.rs:237); the
+    later rounds are `when_empty` registrations and `try_send`s, which move neither counter. So the truncations are
+    those of the prefill (plain sends) and the call counts as blocked iff its first attempt failed. -/
+def blockingSendCounters (cfg : Cfg) (rx : RxKind) (prefill : Nat) (x : Nat) : Nat × Nat :=
+  let b := (sendOrWaitFirst cfg { st := prefillState cfg rx prefill, mBlocked := 0 } x).1
+  (b.st.mTruncated, b.mBlocked)
 
 end EmitModel.Batcher
